@@ -5,6 +5,7 @@ import json
 import multiprocessing
 import os
 import random
+import signal
 import subprocess
 import sys
 import time
@@ -25,6 +26,9 @@ def rng(env, stream):
     return random.Random("%s:%s:%s" % (env["seed"], env["pid"], stream))
 
 
+_WD = {"n": 0, "r": None}
+
+
 class R:
     """Result of one worker task (also used as accumulator per sub-check)."""
 
@@ -43,6 +47,7 @@ class R:
         self.notes = {}
         self.exhaustive = True
         self.err = None
+        _WD["r"] = self  # the watchdog returns the task's (first) result object on abort
 
     def sample(self, s):
         if len(self.samples) < MAX_SAMPLES:
@@ -117,18 +122,66 @@ def _js(x):
     return repr(x)
 
 
+class CaseTimeout(Exception):
+    """Raised *inside the code under test* by the watchdog when a task overruns: the
+    implementation did not terminate.  It is an Exception on purpose: the explorers treat
+    every exception of an implementation call as that call's outcome, so the hanging case is
+    recorded as a violation ('raise CaseTimeout') with its replay arguments."""
+
+
+class TaskAbort(BaseException):
+    pass
+
+
+# generous: the slowest legitimate quick task takes ~40 s, thorough tasks are split to < 20 min
+TASK_TIMEOUT = {"quick": 150.0, "thorough": 3600.0}
+REARM = 6.0
+MAX_TIMEOUTS = 5
+
+
+def _on_alarm(signum, frame):
+    _WD["n"] += 1
+    if _WD["n"] > MAX_TIMEOUTS:
+        raise TaskAbort()
+    signal.setitimer(signal.ITIMER_REAL, REARM)
+    raise CaseTimeout()
+
+
 def _worker(job):
     modname, fname, args, env = job
+    _WD["n"] = 0
+    _WD["r"] = None
     try:
         mod = importlib.import_module(modname)
         f = getattr(mod, "task_" + fname)
         t0 = time.time()
-        r = f(args, env)
+        signal.signal(signal.SIGALRM, _on_alarm)
+        signal.setitimer(signal.ITIMER_REAL, float(os.environ.get("VERIF_TASK_TIMEOUT", 0))
+                         or TASK_TIMEOUT.get(env.get("tier"), 240.0))
+        try:
+            r = f(args, env)
+        finally:
+            signal.setitimer(signal.ITIMER_REAL, 0)
         r.notes["task_s"] = round(time.time() - t0, 3)
         if not isinstance(r, R):
             raise TypeError("task %s returned %r" % (fname, type(r)))
+        if _WD["n"]:
+            r.notes["watchdog_timeouts"] = _WD["n"]
+        return r
+    except TaskAbort:
+        signal.setitimer(signal.ITIMER_REAL, 0)
+        r = _WD["r"]
+        if r is None or not r.viols:
+            r = R(fname)
+            r.err = "task %s(%s) aborted by the watchdog without a recorded case" % (
+                fname, json.dumps(_js(args))[:300])
+            return r
+        r.exhaustive = False
+        r.caps.append("task %s aborted after %d watchdog timeouts (non-terminating code under test)"
+                      % (fname, MAX_TIMEOUTS))
         return r
     except BaseException:  # harness error, never a verdict
+        signal.setitimer(signal.ITIMER_REAL, 0)
         r = R(fname)
         r.err = "task %s(%s)\n%s" % (fname, json.dumps(_js(args))[:300], traceback.format_exc())
         return r
@@ -178,7 +231,17 @@ class Ctx:
             if self._pool is None:
                 ctx = multiprocessing.get_context("fork")
                 self._pool = ctx.Pool(self.jobs)
-            res = self._pool.map(_worker, jobs, chunksize=1)
+            res = []
+            for r in self._pool.imap(_worker, jobs, chunksize=1):
+                res.append(r)
+                if any("aborted after" in c for c in r.caps):
+                    # non-terminating code under test: one task's worth of evidence is
+                    # enough for the verdict; do not wait for every other task to hang too
+                    self._pool.terminate()
+                    self._pool.join()
+                    self._pool = None
+                    r.caps.append("exploration stopped early: remaining tasks not run")
+                    break
         for r in res:
             self.acc(r)
         return res
@@ -240,7 +303,17 @@ def replay_file(path):
     violates, exit 0 if it passes."""
     with open(path) as f:
         case = json.load(f)
-    out = run_replay_fn(case["fn"], case["args"])
+
+    def on_alarm(signum, frame):
+        signal.setitimer(signal.ITIMER_REAL, REARM)
+        raise CaseTimeout()
+
+    signal.signal(signal.SIGALRM, on_alarm)
+    signal.setitimer(signal.ITIMER_REAL, float(os.environ.get("VERIF_REPLAY_TIMEOUT", 90)))
+    try:
+        out = run_replay_fn(case["fn"], case["args"])
+    finally:
+        signal.setitimer(signal.ITIMER_REAL, 0)
     if out is None:
         print("REPLAY-PASS property=%s key=%s" % (case["property"], case["key"]))
         return 0
